@@ -68,7 +68,74 @@ fn hook_map(mut m: Map<String, Value>) -> Option<Map<String, Value>> {
     Some(m)
 }
 
+/// "typed": a coroutine whose resume argument or yielded value carries data (only one of the two is the unit type) computes
+/// for several time slices between its suspension points on a plain thread. The preemption handler suspends the current
+/// coroutine as one of type <(), ()>: it must leave any other coroutine alone, or invented values reach the resumer and
+/// resume arguments reach the wrong suspension point (property C08: values cross the boundary unchanged).
+fn run_typed(kind: &str, n: u64) {
+    use open_coroutine_core::common::constants::CoroutineState;
+    use open_coroutine_core::coroutine::Coroutine;
+    let mut got: Vec<String> = vec![];
+    let mut want: Vec<String> = vec![];
+    if kind == "yield_only" {
+        let mut co: Coroutine<(), i32, i32> = Coroutine::new(Some("typed-y".to_string()), move |s, ()| {
+            for v in 1..=3 {
+                std::hint::black_box(checksum(n));
+                s.suspend_with(v * 11);
+            }
+            std::hint::black_box(checksum(n));
+            42
+        }, None, None).expect("coroutine");
+        want = vec!["S33".into(); 0];
+        want.extend(["S11", "S22", "S33", "C42"].iter().map(|x| (*x).to_string()));
+        for _ in 0..40 {
+            match co.resume() {
+                Ok(CoroutineState::Suspend(v, _)) => got.push(format!("S{v}")),
+                Ok(CoroutineState::Complete(r)) => { got.push(format!("C{r}")); break; }
+                Ok(other) => { got.push(format!("{other}")); break; }
+                Err(e) => { got.push(format!("E{e}")); break; }
+            }
+        }
+    } else {
+        // the body reports the arguments it received through its return value
+        let mut co: Coroutine<i32, (), i32> = Coroutine::new(Some("typed-p".to_string()), move |s, first| {
+            let mut acc = first;
+            for _ in 0..3 {
+                std::hint::black_box(checksum(n));
+                let a = s.suspend_with(());
+                acc = acc * 100 + a;
+            }
+            std::hint::black_box(checksum(n));
+            acc
+        }, None, None).expect("coroutine");
+        want.extend(["S", "S", "S", "C1020304"].iter().map(|x| (*x).to_string()));
+        let mut arg = 1;
+        for _ in 0..40 {
+            let r = co.resume_with(arg);
+            arg += 1;
+            match r {
+                Ok(CoroutineState::Suspend((), _)) => got.push("S".into()),
+                Ok(CoroutineState::Complete(r)) => { got.push(format!("C{r}")); break; }
+                Ok(other) => { got.push(format!("{other}")); break; }
+                Err(e) => { got.push(format!("E{e}")); break; }
+            }
+        }
+    }
+    rec(json!({"ev": "typed", "kind": kind, "got": got, "want": want}));
+}
+
 fn run_scenario(sc: &Value) {
+    if let Some(kind) = sc.get("typed").and_then(Value::as_str) {
+        rec(json!({"ev": "mreset", "scenario": sc["id"], "threads": 0, "busy": "typed"}));
+        let t0 = Instant::now();
+        let probe = 2_000_000u64;
+        let _ = checksum(probe);
+        let per_ms = probe as f64 / t0.elapsed().as_secs_f64() / 1000.0;
+        run_typed(kind, (per_ms * 35.0) as u64);
+        rec(json!({"ev": "mend", "scenario": sc["id"]}));
+        flush();
+        unsafe { libc::_exit(0) };
+    }
     set_block_sigurg(true);
     install_hook_sink(Some(Box::new(hook_map)));
     let threads = sc["threads"].as_u64().unwrap();
